@@ -64,17 +64,37 @@ def gather (data : List Row) : List Nat → Option (List Row)
     | some r, some rs => some (r :: rs)
     | _, _ => none
 
+/-- `new_indices = np.empty(original_indices.max() + 1); new_indices[original_indices] =
+np.arange(original_indices.size)`: the lookup array, written entry by entry; `none` is a slot
+of `np.empty` that was never written. -/
+def tableGo : List Nat → Nat → List (Option Nat) → List (Option Nat)
+  | [], _, t => t
+  | x :: xs, k, t => tableGo xs (k + 1) (t.set x (some k))
+
+def mkTable (u : List Nat) : List (Option Nat) :=
+  tableGo u 0 (List.replicate (u.foldl max 0 + 1) none)
+
+/-- `new_indices[x]`; `none` = out of range or never written -/
+def newIndex (t : List (Option Nat)) (x : Nat) : Option Nat := (t[x]?).join
+
+/-- `new_indices[original_pairs[i]]` for both groups -/
+def newPairs (tP tS : List (Option Nat)) : List (Nat × Nat) → Option (List (Nat × Nat))
+  | [] => some []
+  | p :: ps =>
+    match newIndex tP p.1, newIndex tS p.2, newPairs tP tS ps with
+    | some a, some b, some r => some ((a, b) :: r)
+    | _, _, _ => none
+
 /-- `_create_return` on the original index pairs; `ok none` is `Collocator.empty`
-(no pair at all), `error` is the IndexError of `isel`.  `new_indices[x]` is the position
-of `x` in the duplicate-free `original_indices`, i.e. `idxOf`. -/
+(no pair at all), `error` is the IndexError of `isel` (or of the table lookup, which
+`newPairs_eq` shows impossible). -/
 def compactify (op : List (Nat × Nat)) (P0 S0 : List Row) : Except Err (Option Compact) :=
   if op.isEmpty then .ok none else
   let uP := uniq (op.map Prod.fst)
   let uS := uniq (op.map Prod.snd)
-  match gather P0 uP, gather S0 uS with
-  | some P, some S =>
-    .ok (some { pairs := op.map (fun p => (uP.idxOf p.1, uS.idxOf p.2)), P := P, S := S })
-  | _, _ => .error .indexError
+  match gather P0 uP, gather S0 uS, newPairs (mkTable uP) (mkTable uS) op with
+  | some P, some S, some prs => .ok (some { pairs := prs, P := P, S := S })
+  | _, _, _ => .error .indexError
 
 /-! ## validity of a compact dataset -/
 
